@@ -195,4 +195,5 @@ func c17Run(maxPat, maxSub int) {
 }
 
 func VF_C17_match_quick()    { c17Run(4, 2) }
+func VF_C17_match5_quick()   { c17Run(5, 1) }
 func VF_C17_match_thorough() { c17Run(5, 3) }
